@@ -50,6 +50,7 @@ CODES = {1: 'missing-from-entry', 2: 'invalid-reference', 3: 'ambiguous-table', 
 KF_RAND = 'C13-nondet-check-scan-random'
 KF_SETORDER = 'C13-nondet-set-iteration-order'
 KF_PRESENT = 'C13-unused-global-present-flag'
+KF_HASHSEED = 'C13-nondet-hash-seed-order'
 
 
 # ---------------------------------------------------------------- schemas / spec
@@ -142,10 +143,34 @@ def gen_cases(tier, spec):
     return [cases[i] for i in order], len(seeds)
 
 
+def par_lines(argv, lines, nproc, env, timeout=14400):
+    """like lib.parallel_lines, but also splits small batches (each worker pays ~2 s of start-up)"""
+    import subprocess
+    from concurrent.futures import ThreadPoolExecutor
+    if not lines:
+        return []
+    nproc = max(1, min(nproc, (len(lines) + 11) // 12))
+    size = (len(lines) + nproc - 1) // nproc
+    chunks = [lines[i:i + size] for i in range(0, len(lines), size)]
+
+    def one(chunk):
+        p = subprocess.run(argv, input='\n'.join(chunk) + '\n', env=env, stdout=subprocess.PIPE,
+                           stderr=subprocess.PIPE, text=True, timeout=timeout)
+        out = p.stdout.split('\n')
+        if out and out[-1] == '':
+            out.pop()
+        if p.returncode != 0 or len(out) != len(chunk):
+            raise RuntimeError(f'{argv}: rc={p.returncode}, {len(out)} results for {len(chunk)} cases\n{p.stderr[-3000:]}')
+        return out
+    with ThreadPoolExecutor(len(chunks)) as ex:
+        res = list(ex.map(one, chunks))
+    return [x for r in res for x in r]
+
+
 def run_impl(lines, specpath, hashseed='0', nproc=NPROC, det=False):
     env = lib.impl_env(hashseed)
     env['C13_DET'] = '1' if det else '0'
-    res = lib.parallel_lines([lib.PY, IMPL, lib.REPO, specpath], lines, nproc=nproc, env=env, timeout=14400)
+    res = par_lines([lib.PY, IMPL, lib.REPO, specpath], lines, nproc, env)
     return [json.loads(x) for x in res]
 
 
@@ -513,7 +538,7 @@ def run(tier):
     for hs in seeds_probe:
         t0 = time.time()
         other = run_impl([lines[i] for i in probe], specpath, hashseed=hs, det=True)
-        t_probe += time.time() - t0
+        differing = []
         for i, o in zip(probe, other):
             d = d0.get(i) or {}
             if d.get('st') != 'ok' or o.get('st') != 'ok':
@@ -525,13 +550,32 @@ def run(tier):
                 continue
             if obs_key(d) != obs_key(o):
                 cross_diff += 1
-                nd_classes[f'hashseed 0 vs {hs}:unexplained'] += 1
-                nd_violation(i, f'PYTHONHASHSEED 0 vs {hs}, deterministic identity hashes and UUIDs in both',
-                             obs_key(d, False), obs_key(o, False), {'mode': 'D'})
+                differing.append((i, o))
             # mode D must itself be reproducible in-process, else the attribution above means nothing
-            if i not in set(need_d) and obs_key(d) != obs_key2(d):
+            if hs == seeds_probe[0] and i not in set(need_d) and obs_key(d) != obs_key2(d):
                 nd_classes['mode D:unexplained'] += 1
                 nd_violation(i, 'same process, mode D', obs_key(d, False), obs_key2(d, False), {'mode': 'D'})
+        # attribution: a fresh process with the SAME hash seed must reproduce the seed-0 output exactly
+        again = dict(zip([i for i, _ in differing],
+                         run_impl([lines[i] for i, _ in differing], specpath, hashseed='0', det=True))) \
+            if differing else {}
+        t_probe += time.time() - t0
+        for i, o in differing:
+            d = d0[i]
+            a = again.get(i) or {}
+            if a.get('st') == 'ok' and obs_key(a) == obs_key(d):
+                nd_classes[f'hashseed 0 vs {hs}:' + KF_HASHSEED] += 1
+                if KF_HASHSEED in known:
+                    kf.append((KF_HASHSEED, 'the emitted SQL depends on PYTHONHASHSEED (iteration over sets whose element '
+                                            'hashes derive from str hashes, e.g. PathId): ' + dec_case(lines[i])[2][:120]))
+                else:
+                    nd_violation(i, f'PYTHONHASHSEED 0 vs {hs}; identity hashes and UUIDs deterministic in both; a second '
+                                    'process with seed 0 reproduces the seed-0 text', obs_key(d, False), obs_key(o, False),
+                                 {'mode': 'D', 'classes': [KF_HASHSEED], 'proposed_known_finding': [KF_HASHSEED]}, pr=3)
+            else:
+                nd_classes[f'hashseed 0 vs {hs}:unexplained'] += 1
+                nd_violation(i, f'PYTHONHASHSEED 0 vs {hs}, and two processes with the same seed also differ',
+                             obs_key(d, False), obs_key(o, False), {'mode': 'D'})
 
     # ---- the validator against the Python reference on mutated terms (malformed stream)
     rndm = lib.rng('C13mut')
